@@ -24,6 +24,10 @@ CHECKS = {
    technique="property-based testing (rapid): constructive texts with construction-known answer + arbitrary texts checked by a DP alignment against span-validity and coverage predicates; exhaustive short strings over the critical alphabet",
    text="(A) Texts F0 A1 F1 .. An Fn with generated addresses and closed filler atoms (lone @, x@, @x, dot-less, numeric, slash-preceded, multi-byte, invalid bytes, escapes; adjacency; truncated domain at end of text) must become exactly fillers+REDACTED and count once; every non-address byte enumerated as neighbour. (B) Arbitrary texts (all strings <=5 over {a,1,.,@,/,space,-}, soups, edited constructive texts, raw bytes): a dynamic-programming alignment must map input to output using only valid redaction spans, cover every unambiguous address found by an independently written matcher, cover no purely numeric / slash-preceded / unshaped '@', and preserve everything else.",
    note="Supported shape uses maximal-run semantics (an address is the maximal run of address characters around '@'); domains that start and end with a digit but contain letters are a documented grey zone in which either behaviour is accepted. The escape caveat documented in config_sample.yml (\\nbob@x.y swallows the n) is respected by the generator."),
+ "C08": dict(engine="c08frame", category="exploration", design="§3 C08",
+   technique="property-based testing (rapid) + exhaustive 1-/2-cut split enumeration of the real multiLineReader against a line-based reference framer",
+   text="Streams of single- and multi-line records (tricky continuation lines: empty, head-like but <32 bytes, 4-digit PRI, wrong version; leading garbage) are delivered to the real multiLineReader (hook H2, soft limits 128/200/1000, buffers 3-4x so relocation happens) under every 1- and 2-cut split of fixed streams, and under generated splits (up to 12 cuts biased to header bytes and newlines, byte-wise delivery) with up to 4 Flush() calls; records beginning with a real head line must equal the reference framer's records, once and in order; with a flush between a head and its last continuation the record is the head plus exactly the continuation lines completed before that flush.",
+   note="Reader driven in-process with a scripted io reader; each logical record is kept <= the soft limit (over-long lines are C07's subject). Lines orphaned by a flush are not compared (the property promises nothing about them). The real-socket path (NetConnWrapper deadlines) is exercised by the end-to-end engines."),
 }
 
 NOT_YET = {}
